@@ -382,7 +382,15 @@ fn exec_tok(syn: &str, kind: &str, w: &str) -> String {
         Some(s) => validator_ok(syn, kind, s) && obs.fails.is_empty(),
         None => false,
     };
-    let mut o = format!("accepted=1 out={} valid={}", out.as_deref().map(hex).unwrap_or("panic".into()), b(valid));
+    // what reading the term gave (dev build): compared with the Lean model of the accessor layer
+    let acc = if obs.fails.iter().any(|f| f.starts_with("panic.")) {
+        "panic"
+    } else if !valid {
+        "invalid"
+    } else {
+        "ok"
+    };
+    let mut o = format!("accepted=1 out={} valid={} acc={}", out.as_deref().map(hex).unwrap_or("panic".into()), b(valid), acc);
     o += &fail_fields(&obs);
     if !valid && obs.fails.is_empty() {
         o += &format!(" FAIL.invalid_term={}", kind);
